@@ -204,7 +204,10 @@ func (t *Task) main() {
 	<-t.resume
 	defer func() {
 		if r := recover(); r != nil {
-			if _, ok := r.(killSentinel); !ok {
+			if _, ok := r.(killSentinel); !ok && !t.killNext && !t.Dead {
+				// (a task whose simulated process has already been killed - a goroutine of its own met the crash -
+				// and that trips over the half-finished state on its way to its next scheduling point is not a
+				// finding: the process is dead)
 				t.PanicVal = r
 				t.PanicStack = string(debug.Stack())
 			}
